@@ -61,6 +61,88 @@ type Line struct {
 	Replay       string           `json:"replay,omitempty"`
 	WallMs       int64            `json:"wall_ms"`
 	Overrun      bool             `json:"overrun,omitempty"`
+	Known        bool             `json:"known,omitempty"`
+}
+
+type knownFinding struct {
+	Property string                 `json:"property"`
+	Class    string                 `json:"class"`
+	Shape    map[string]interface{} `json:"shape"`
+	Status   string                 `json:"status"`
+}
+
+func loadKnown(path, prop string) []knownFinding {
+	if path == "" {
+		return nil
+	}
+	b, err := os.ReadFile(path)
+	if err != nil {
+		return nil
+	}
+	var f struct {
+		Findings []knownFinding `json:"findings"`
+	}
+	if json.Unmarshal(b, &f) != nil {
+		fmt.Fprintln(os.Stderr, "worker: bad known findings file")
+		os.Exit(2)
+	}
+	var out []knownFinding
+	for _, k := range f.Findings {
+		if k.Property == prop && k.Status == "known" {
+			out = append(out, k)
+		}
+	}
+	return out
+}
+
+func matchKnown(known []knownFinding, v props.Verdict) int {
+	for i, k := range known {
+		if k.Class != v.Class {
+			continue
+		}
+		ok := true
+		for key, want := range k.Shape {
+			got, has := v.Shape[key]
+			if !has {
+				ok = false
+				break
+			}
+			if m, isMap := want.(map[string]interface{}); isMap {
+				gv, isNum := toFloat(got)
+				if !isNum {
+					ok = false
+					break
+				}
+				if mn, has := m["min"].(float64); has && gv < mn {
+					ok = false
+				}
+				if mx, has := m["max"].(float64); has && gv > mx {
+					ok = false
+				}
+				continue
+			}
+			if fmt.Sprint(got) != fmt.Sprint(want) {
+				ok = false
+				break
+			}
+		}
+		if ok {
+			return i
+		}
+	}
+	return -1
+}
+
+func toFloat(v interface{}) (float64, bool) {
+	switch x := v.(type) {
+	case int:
+		return float64(x), true
+	case int64:
+		return float64(x), true
+	case float64:
+		return x, true
+	}
+	return 0, false
 }
 
 func splitmix(x uint64) uint64 {
@@ -162,8 +244,11 @@ func cmdRun(args []string) {
 	maxFail := fs.Int("maxfail", 2, "")
 	memMB := fs.Uint64("mem", 3000, "stop early when the process holds more than this many MB")
 	deadline := fs.Int64("deadline", 0, "unix seconds after which no new run starts")
+	knownFile := fs.String("known", "", "known_findings.json: matching failures do not count towards -maxfail and keep one replay file each")
 	fs.Parse(args)
 	p := getProp(*prop)
+	known := loadKnown(*knownFile, *prop)
+	knownSeen := map[int]bool{}
 	fails := 0
 	for i := *from; i < *from+*n; i++ {
 		if *deadline > 0 && time.Now().Unix() >= *deadline {
@@ -181,6 +266,16 @@ func cmdRun(args []string) {
 		if int(i-*from) < *samples {
 			l.Scenario = c.Scenario
 		}
+		ki := -1
+		if !v.OK {
+			ki = matchKnown(known, v)
+		}
+		if !v.OK && ki >= 0 && knownSeen[ki] {
+			// a further instance of a known finding: reported in the line, no replay file
+			l.Known = true
+			emit(l)
+			continue
+		}
 		if !v.OK {
 			rf := ReplayFile{Property: p.ID, Tier: *tier, FaultFree: *ff, BaseSeed: *seed, RunIndex: i, RunSeed: runSeed,
 				GenTape: g.Tape(), WorldTapes: c.OutTapes, Class: v.Class, Detail: v.Detail, Shape: v.Shape, Trace: c.Trace, Scenario: c.Scenario}
@@ -191,7 +286,12 @@ func cmdRun(args []string) {
 			}
 			l.Replay = path
 			l.Scenario = c.Scenario
-			fails++
+			if ki >= 0 {
+				knownSeen[ki] = true
+				l.Known = true
+			} else {
+				fails++
+			}
 		}
 		emit(l)
 		if fails >= *maxFail {
